@@ -799,12 +799,18 @@ impl Sim {
                     self.log.push(format!("#{i} store {} injected {name}", short(&e.id)));
                     let after = self.observe();
                     let diffs = common(obs::diff_all(&before, &after, &[]));
-                    if let Some((k, a, b)) = diffs.first() {
+                    if !diffs.is_empty() {
+                        // C12, and whatever statements the damage itself contradicts
+                        let ctx = OpCtx { kind: CtxKind::Store, event: Some(e.clone()), desc: String::new(), also: &[] };
+                        let (bi, _, mut props) = self.attribute_all(&diffs, &ctx);
+                        props.retain(|p| *p != "C12");
+                        props.insert(0, "C12");
+                        let (k, a, b) = &diffs[bi];
                         return Some(self.finding(
                             i,
                             "failed-store-changed-state",
-                            &["C12"],
-                            format!("store of {} failed at {name}, yet probe {} changed: {} -> {}", short(&e.id), shorten_key(k), a, b),
+                            &props,
+                            format!("store of {} failed at {name}, yet probe {} changed: {} -> {} ({} probes differ)", short(&e.id), shorten_key(k), a, b, diffs.len()),
                         ));
                     }
                     self.last_obs = Some(after);
